@@ -1,6 +1,7 @@
 import GoRes.Model.Req
 import GoRes.Lemmas.Req
 import GoRes.Generated.Facts
+import GoRes.Generated.Access
 /-! # C08 — events apply, publish and notify in order; failed applies publish nothing -/
 namespace GoRes.Props.C08
 open GoRes GoRes.Req
@@ -137,7 +138,34 @@ current source (regenerated on every run) -/
 theorem reserved_names_match : Generated.reservedEvents = reserved := by
   decide +kernel
 
+/-- In the source of every event method the effects appear in the order the model assumes: the apply
+handler is called (at most once) before the single publish, the single listener loop follows the
+publish, and no `return` or `panic` sits between or after them — re-proved against the statement
+order extracted from resource.go on every run (`Generated/Access.lean`). -/
+def orderOk (xs : List String) : Bool :=
+  let tail := xs.dropWhile (fun x => x == "panic" || x == "return")
+  let tail := if tail.head? == some "apply" then (tail.drop 1).dropWhile (fun x => x == "panic" || x == "return") else tail
+  tail == ["publish", "listeners"] && xs.count "apply" ≤ 1
+
+theorem order_table :
+    ["resource.Event", "resource.ChangeEvent", "resource.AddEvent", "resource.RemoveEvent",
+     "resource.CreateEvent", "resource.DeleteEvent"].all
+      (fun m => (Generated.eventOrder.lookup m).map orderOk == some true) = true := by
+  decide +kernel
+
+/-- only `Event` has no apply handler; the five resource events call theirs before publishing -/
+theorem apply_before_publish :
+    ["resource.ChangeEvent", "resource.AddEvent", "resource.RemoveEvent", "resource.CreateEvent",
+     "resource.DeleteEvent"].all
+      (fun m => match Generated.eventOrder.lookup m with
+        | some xs => (xs.takeWhile (· != "publish")).contains "apply"
+        | none => false) = true := by
+  decide +kernel
+
 /-! ## non-vacuity -/
+example : orderOk ["panic", "apply", "panic", "listeners", "publish"] = false ∧
+    orderOk ["apply", "panic", "publish", "return", "listeners"] = false := by decide +kernel
+
 example : eventShape .ok "add" [1] [2] [.listener 0 [3]] = [.apply "add", .pub [1] [2], .listener 0 [3]] := by decide
 
 end GoRes.Props.C08
